@@ -528,13 +528,13 @@ func c15Cancel(c *Ctx, m *Model, cs c15CancelCase) {
 	case "during":
 		select {
 		case <-gate.started:
-		case <-time.After(3 * time.Second):
+		case <-patient(3 * time.Second):
 		}
 		cancel()
 	case "none", "after":
 		select {
 		case <-gate.started:
-		case <-time.After(3 * time.Second):
+		case <-patient(3 * time.Second):
 		}
 		close(gate.release)
 	case "look":
@@ -551,7 +551,7 @@ func c15Cancel(c *Ctx, m *Model, cs c15CancelCase) {
 	outcome := "hang"
 	select {
 	case outcome = <-done:
-	case <-time.After(3 * time.Second):
+	case <-patient(3 * time.Second):
 	}
 	if cs.When == "after" {
 		cancel()
